@@ -552,13 +552,13 @@ def main():
                    "grid); distinct = (ansatz configuration, parameter vector); non-trivial = unitary not diagonal")
     run = Runner(res, rng, t0)
     #        family, quick (reps, max n, scheduled big n, cap s), thorough (...)
-    plan = [(fam_blocks, (300, None, None, 3), (4000, None, None, 20)),
-            (fam_two_local, (60, 7, [8], 4.5), (400, 8, [9, 10], 45)),
-            (fam_particle_conserving, (50, 7, [8], 4), (320, 8, [9, 10], 50)),
-            (fam_gate_fabric, (40, 7, [8], 3), (260, 8, [9, 10], 35)),
-            (fam_all_singles_doubles, (50, 7, [8], 4), (320, 8, [9, 10], 50)),
-            (fam_uccsd, (80, 6, [8], 4), (420, 8, [9, 10], 55)),
-            (fam_kupccgsd, (50, 6, [8], 3), (290, 8, [9, 10], 40))]
+    plan = [(fam_blocks, (400, None, None, 2.5), (6000, None, None, 20)),
+            (fam_two_local, (90, 7, [8], 4.5), (600, 8, [9, 9, 10], 45)),
+            (fam_particle_conserving, (75, 7, [8], 4), (480, 8, [9, 9, 10], 50)),
+            (fam_gate_fabric, (60, 7, [8], 3), (400, 8, [9, 9, 10], 35)),
+            (fam_all_singles_doubles, (75, 7, [8], 3.5), (480, 8, [9, 9, 10], 50)),
+            (fam_uccsd, (110, 6, [8], 4), (630, 8, [9, 9, 10], 55)),
+            (fam_kupccgsd, (70, 6, [8], 3), (430, 8, [9, 9, 10], 40))]
     for idx, (fam, q, t) in enumerate(plan):
         reps, hi, bigs, cap = q if quick else t
         run.rng = random.Random(a.seed * 1000003 + 15 + 7919 * idx)  # a time cap in one family never shifts the others
